@@ -1,20 +1,26 @@
 #!/bin/bash
 # usage: scripts/try_refactor.sh <dir with patch.diff>
-# Applies a behaviour-preserving refactoring to /repo, runs EVERY check (quick) and reports
-# any VIOLATION / ANALYSIS-ERROR (= false alarm), then restores /repo.
+# Applies a behaviour-preserving refactoring to /repo, runs EVERY check (quick, 6 at a time)
+# and reports any VIOLATION / ANALYSIS-ERROR (= false alarm), then restores /repo.
 d=$(cd "$1" && pwd)
+name=$(basename $d)
 cd /verif
-if ! git -C /repo apply --check $d/patch.diff 2>/dev/null; then echo "$(basename $d) PATCH-DOES-NOT-APPLY"; exit 0; fi
+if ! git -C /repo apply --check $d/patch.diff 2>/dev/null; then echo "$name PATCH-DOES-NOT-APPLY"; exit 0; fi
+scripts/check C16 quick >/dev/null 2>&1   # make sure the binary is built before going parallel
 git -C /repo apply $d/patch.diff
-bad=0
-for c in C01 C02 C03 C04 C05 C06 C07 C08 C09 C10 C11 C12 C13 C14 C15 C16 C17 C18 C19 C20; do
-  out=$(VERIF_EVIDENCE_DIR=/tmp/seed-evidence scripts/check $c quick 2>&1)
-  if echo "$out" | grep -q "^VIOLATION\|ANALYSIS-ERROR"; then
-    bad=1
-    echo "=== $(basename $d): $c raises"
-    echo "$out" | grep -v "^KNOWN-FINDING\|^WARNING" | grep -B1 "^VIOLATION\|ANALYSIS-ERROR" | grep -v "^--" | cut -c1-700
-  fi
-done
+out=/tmp/refactor-out-$name
+rm -rf $out; mkdir -p $out
+printf "%s\n" C01 C02 C03 C04 C05 C06 C07 C08 C09 C10 C11 C12 C13 C14 C15 C16 C17 C18 C19 C20 | \
+  xargs -P 6 -I{} sh -c "VERIF_EVIDENCE_DIR=/tmp/seed-evidence/{} /verif/bin/comdexlint -verif /verif -repo /repo -prop {} -tier quick > $out/{}.log 2>&1"
 git -C /repo checkout -- .
 git -C /repo clean -fdq x app types 2>/dev/null
-[ $bad -eq 0 ] && echo "$(basename $d) silent on all checks"
+bad=0
+for c in C01 C02 C03 C04 C05 C06 C07 C08 C09 C10 C11 C12 C13 C14 C15 C16 C17 C18 C19 C20; do
+  if grep -q "^VIOLATION\|ANALYSIS-ERROR" $out/$c.log; then
+    bad=1
+    echo "=== $name: $c raises"
+    grep -v "^KNOWN-FINDING\|^WARNING" $out/$c.log | grep -B1 "^VIOLATION\|ANALYSIS-ERROR" | grep -v "^--" | cut -c1-700
+  fi
+done
+[ $bad -eq 0 ] && echo "$name silent on all checks"
+rm -rf $out
